@@ -435,7 +435,24 @@ fn short(o: &Outcome) -> String {
 }
 
 /// Run a scenario completely.
+/// Single-threaded phases of a command (enumerating sweep cases, minimising, writing replays) have no
+/// pool slot a watchdog could look at: while `TRACK` is set, every run records itself here first.
+pub static TRACK: std::sync::atomic::AtomicBool = std::sync::atomic::AtomicBool::new(false);
+pub static CURRENT: std::sync::Mutex<Option<(String, std::time::Instant)>> = std::sync::Mutex::new(None);
+
 pub fn run(sc: &Scenario, recvs: &'static BTreeMap<&'static str, RecvDesc>) -> Judged {
+    let tracked = TRACK.load(std::sync::atomic::Ordering::Relaxed);
+    if tracked {
+        *CURRENT.lock().unwrap_or_else(|e| e.into_inner()) = Some((serde_json::to_string(sc).unwrap_or_default(), std::time::Instant::now()));
+    }
+    let j = run_untracked(sc, recvs);
+    if tracked {
+        *CURRENT.lock().unwrap_or_else(|e| e.into_inner()) = None;
+    }
+    j
+}
+
+fn run_untracked(sc: &Scenario, recvs: &'static BTreeMap<&'static str, RecvDesc>) -> Judged {
     let mut doc = sc.doc.clone();
     let source = input::render(&mut doc);
     let mut j = Judged {
